@@ -45,8 +45,9 @@ type MaybeNil struct {
 // SymStr is an opaque string; Num, when set, says the string is the decimal
 // text of that integer term.
 type SymStr struct {
-	Desc string
-	Num  *Term
+	Desc  string
+	Num   *Term
+	Bytes []Value // set for string(b) of non-concrete bytes: []byte(s) gives them back
 }
 
 type Iface struct {
